@@ -50,6 +50,11 @@ def gen_case(run_seed: int, tier: str) -> dict:
     kn["assertions"] = "NONE"
     if case["algorithm"] != "DYNAMOSA":
         kn["metrics"] = k.choice([["BRANCH"], ["BRANCH", "LINE"], ["LINE"]])
+    if case["algorithm"] == "WHOLE_SUITE" and k.random() < 0.6:
+        # with an archive the suite fitness function is restricted to the still uncovered branches as the run goes
+        # (the whole-suite archive supports branch goals only - it asserts on anything else)
+        kn["use_archive"] = True
+        kn["metrics"] = ["BRANCH"]
     case["timeout_p"] = f.choice([0.0, 0.05, 0.2])
     return case
 
@@ -59,6 +64,8 @@ class ConsistencyMonitor(Monitor):
         self.pairs_true = 0
         self.pairs_false = 0
         self.suites = 0
+        self.edit_probes = 0
+        self.restricted_suites = 0
 
     def on_algorithm(self, run, algo):
         self.algo = algo
@@ -129,6 +136,13 @@ class ConsistencyMonitor(Monitor):
                 self.suites += 1
                 bf = fit_by_type.get("BranchDistanceTestSuiteFitnessFunction")
                 bc = cov_by_type.get("TestSuiteBranchCoverageFunction")
+                restricted = any(getattr(f, "_excluded_code_objects", None) or getattr(f, "_excluded_true_predicates", None)
+                                 or getattr(f, "_excluded_false_predicates", None) for f in c.get_fitness_functions())
+                if restricted:
+                    # a restricted function ignores the branches the archive already holds: zero then means "the rest
+                    # is covered", not "everything is covered" - only the fitness/verdict agreement above applies
+                    self.restricted_suites += 1
+                    bf = None
                 if bf is not None and bc is not None and (bf == 0.0) != (bc == 1.0):
                     run.violate("suite-branch-fitness-vs-coverage",
                                 f"suite branch fitness {bf!r} but branch coverage {bc!r}")
@@ -137,11 +151,43 @@ class ConsistencyMonitor(Monitor):
                 if lf is not None and lc is not None and (lf == 0.0) != (lc == 1.0):
                     run.violate("suite-line-fitness-vs-coverage", f"suite line fitness {lf!r} but line coverage {lc!r}")
 
+    def _edit_then_verdict_first(self, run, best):
+        """The order the archive uses: a freshly varied chromosome is asked for its covered verdict BEFORE anybody
+        asked for its fitness.  Two clones per boundary; the run's RNG state is put back afterwards."""
+        import pynguin.ga.testcasechromosome as tcc
+        from pynguin.utils import randomness
+
+        cands = [c for c in self._chromosomes(run, best) if isinstance(c, tcc.TestCaseChromosome)
+                 and not c.changed and c.get_last_execution_result() is not None and c.get_fitness_functions()]
+        state = randomness.RNG.getstate()
+        try:
+            for c in cands[:2]:
+                ffs = c.get_fitness_functions()
+                for f in ffs:
+                    c.get_fitness_for(f)  # warm cache on the parent
+                clone = c.clone()
+                clone.mutate()
+                if not clone.changed:
+                    continue
+                self.edit_probes += 1
+                f = ffs[self.edit_probes % len(ffs)]
+                cov = clone.get_is_covered(f)
+                fit = clone.get_fitness_for(f)
+                if cov != (fit == 0.0):
+                    run.violate(f"verdict-before-fitness-disagrees:{type(f).__name__}",
+                                f"{f}: after clone+mutate, get_is_covered (asked first) = {cov}, get_fitness_for = {fit!r}"
+                                f"\nparent:\n{c.test_case.to_code()}\nclone:\n{clone.test_case.to_code()}")
+                    return
+        finally:
+            randomness.RNG.setstate(state)
+
     def before_first_iteration(self, run, initial):
         self._check(run, initial)
 
     def after_iteration(self, run, best):
         self._check(run, best)
+        if run.violation is None:
+            self._edit_then_verdict_first(run, best)
 
     def before_assertions(self, run, suite):
         self._check(run, suite)
@@ -151,7 +197,9 @@ def run_case(case: dict) -> dict:
     mon = ConsistencyMonitor()
     run, res = run_pipeline(case, [mon])
     res["nontrivial"] = mon.pairs_true >= 20 and mon.pairs_false >= 20
-    res["probes"].update(pairs_covered=mon.pairs_true, pairs_uncovered=mon.pairs_false, suites_checked=mon.suites)
+    res["probes"].update(pairs_covered=mon.pairs_true, pairs_uncovered=mon.pairs_false, suites_checked=mon.suites,
+                         clone_mutate_verdict_first_probes=mon.edit_probes,
+                         suites_with_restricted_fitness_function=mon.restricted_suites)
     if case["run_seed"] % 11 == 0:
         res["sample"] = {"module": case["module"], "algorithm": case["algorithm"], "knobs": case["knobs"],
                          "timeout_p": case["timeout_p"], "pairs": [mon.pairs_true, mon.pairs_false]}
